@@ -5,8 +5,8 @@ Modelled code (param/parameterized.py, as written):
   `Parameter.__get__`, `Parameter.__set__` (+ `instance_descriptor`), `_instantiated_parameter`,
   `_instantiate_param_obj`, `Parameters.__getitem__` (`obj.param.x`), `Parameters._setup_params`,
   `Parameters._instantiate_param` (deepcopy vs reference), `Parameterized.__init__`,
-  `ParameterizedMetaclass.__setattr__` (copy-on-write: a *shallow* `copy.copy` of the inherited
-  Parameter), `ParameterizedMetaclass.get_param_descriptor`;
+  `ParameterizedMetaclass.__setattr__` (copy-on-write through `_instantiate_param_obj`: the subclass's
+  Parameter has mutable slot values of its own), `ParameterizedMetaclass.get_param_descriptor`;
   param/parameters.py: `Integer._validate_value/_validate_bounds`, `Selector._validate`,
   `Selector._ensure_value_is_in_objects`, `Selector.objects` setter, `ListProxy.append`.
 
@@ -51,6 +51,9 @@ inductive Kind | plain | number | selector
 
 /-- slots whose value is a mutable container: `_objects` (list), `names` (dict), `bounds` (when a list) -/
 inductive Slot | objects | names | bounds
+  /-- a list-valued slot of a user-defined Parameter subclass whose `__getstate__` blanks it (as `Path` does
+  with `search_paths`) -/
+  | tags
   deriving DecidableEq, Repr
 
 inductive Owner
@@ -249,6 +252,8 @@ structure Decl where
   /-- `objects=[..]` (Selector) -/
   objects : Option (List Int)
   allowRefs : Bool := false
+  /-- `tags=[..]` of the harness's `Tagged` Parameter subclass -/
+  tags : Option (List Int) := none
   deriving DecidableEq, Repr
 
 inductive Target
@@ -285,20 +290,25 @@ inductive Op
   | sharedFail
   deriving DecidableEq, Repr
 
+/-- the container-valued slots a declaration fills, in the order the objects are created -/
+def declSlots (d : Decl) : List (Slot × List Int) :=
+  (match d.boundsList with | some (lo, hi) => [(Slot.bounds, [lo, hi])] | none => []) ++
+  (match d.objects with | some l => [(Slot.objects, l), (Slot.names, [])] | none => []) ++
+  (match d.tags with | some l => [(Slot.tags, l)] | none => [])
+
+def allocSlots (cells : List (List Int)) : List (Slot × List Int) → List (Slot × CellId) × List (List Int)
+  | [] => ([], cells)
+  | (s, l) :: rest =>
+    let (rest', cells2) := allocSlots (cells ++ [l]) rest
+    ((s, cells.length) :: rest', cells2)
+
 /-- the Parameter object a declaration builds -/
 def declare (cells : List (List Int)) (k : ClsId) (d : Decl) : PObj × List (List Int) :=
   let (dv, cells1) := evalLit cells d.default
-  let (ms1, cells2) : List (Slot × CellId) × List (List Int) :=
-    match d.boundsList with
-    | some (lo, hi) => ([(Slot.bounds, cells1.length)], cells1 ++ [[lo, hi]])
-    | none => ([], cells1)
-  let (ms2, cells3) : List (Slot × CellId) × List (List Int) :=
-    match d.objects with
-    | some l => (ms1 ++ [(Slot.objects, cells2.length), (Slot.names, cells2.length + 1)], cells2 ++ [l, []])
-    | none => (ms1, cells2)
+  let (ms, cells2) := allocSlots cells1 (declSlots d)
   ({ kind := d.kind, owner := .cls k, default := dv, instantiate := d.instantiate, constant := d.constant,
      perInstance := d.perInstance, checkOnSet := d.checkOnSet, allowRefs := d.allowRefs, precedence := none,
-     boundsTup := d.boundsTup, mslots := ms2 }, cells3)
+     boundsTup := d.boundsTup, mslots := ms }, cells2)
 
 def declareAll (k : ClsId) : List (List Int) → List Decl → List (Name × PObj) × List (List Int)
   | cells, [] => ([], cells)
@@ -407,19 +417,24 @@ def doSetInstCore (w : World) (i : InstId) (x : Name) (lit : Lit) : World × Opt
           if v = old then (w2, none) else (w2, some .typeError)
         else (w2.setInst i fun I' => { I' with values := aset I'.values x v }, none)
 
-/-- `K.x = v`: copy-on-write of an inherited Parameter (shallow: the copy shares every slot object
-    with the ancestor's Parameter), installed *before* the value is validated; when the value is
-    rejected nothing was stored and the copy is removed again — the class goes on inheriting
-    -- src: parameterized.py ParameterizedMetaclass.__setattr__, Parameter.__set__ (obj is None) -/
+/-- `K.x = v`: copy-on-write of an inherited Parameter — `_instantiate_param_obj(inherited, K)`: the copy
+    gets mutable slot values of its own (`default` stays shared) — installed *before* the value is
+    validated; when the value is rejected nothing was stored and the copy is removed again: the class
+    goes on inheriting
+    -- src: parameterized.py ParameterizedMetaclass.__setattr__, _instantiate_param_obj, Parameter.__set__ (obj is None) -/
 def doSetClsCore (w : World) (k : ClsId) (x : Name) (lit : Lit) : World × Option Err :=
   match w.resolve k x with
   | none => (w, some .unsupported)
   | some (k', P) =>
     let (v, cells1) := evalLit w.cells lit
-    let p := if k' = k then P else { P with owner := .cls k }
-    let w1 := ({ w with cells := cells1 }).setOwn k x p
+    let (p, cells1') : PObj × List (List Int) :=
+      if k' = k then (P, cells1)
+      else
+        let (ms, c) := copySlots cells1 P.mslots
+        ({ P with owner := .cls k, mslots := ms }, c)
+    let w1 := ({ w with cells := cells1' }).setOwn k x p
     match validate w1.cells p v with
-    | .error e => ({ w with cells := cells1 }, some e)
+    | .error e => ({ w with cells := cells1' }, some e)
     | .ok cells2 => (({ w1 with cells := cells2 }).setOwn k x { p with default := v }, none)
 
 /-- a reference without a value is outside the fragment except as constructor keyword -/
